@@ -1,0 +1,13 @@
+//go:build verif
+
+package band
+
+// BeginBlockOrderForVerif returns the configured begin-block module order (verification harness only).
+func (app *BandApp) BeginBlockOrderForVerif() []string {
+	return append([]string{}, app.mm.OrderBeginBlockers...)
+}
+
+// EndBlockOrderForVerif returns the configured end-block module order (verification harness only).
+func (app *BandApp) EndBlockOrderForVerif() []string {
+	return append([]string{}, app.mm.OrderEndBlockers...)
+}
